@@ -21,6 +21,8 @@ use std::ops::Range;
 
 pub use self::buffer::InputBuffer;
 pub use self::buffer::InputEditor;
+#[cfg(feature = "verif")]
+pub use self::buffer::VerifTables;
 
 /// Provides fast indexed access into the input text
 pub trait InputTextIndex {
